@@ -58,6 +58,9 @@ def main():
             shutil.copytree(out, os.path.join(wt, "_out"), ignore=shutil.ignore_patterns("patch.diff", "meta.json", "*.log"))
             demos = []
         demo_sh = open(os.path.join(out, "demo.sh")).read().replace(agent, wt)
+        # scripts that locate the worktree root relative to their own position: they are run from the root here
+        import re
+        demo_sh = re.sub(r'cd "\$\(dirname "\$0"\)[^"]*"', 'cd ' + wt, demo_sh)
         open(os.path.join(wt, "_demo.sh"), "w").write(demo_sh)
         rc0, o0 = sh("bash _demo.sh", cwd=wt)
         rec["demo_without_change"] = "pass" if rc0 == 0 else "FAIL"
